@@ -749,24 +749,38 @@ def trace(a, *args, **kwargs):
     return np.trace._implementation(np.asarray(a), *args, **kwargs) * a.units
 
 
+def _quantile_helper(func, a, *args, **kwargs):
+    # out is the third argument after a: (q, axis, out, ...)
+    out = args[2] if len(args) > 2 else kwargs.get("out")
+    if out is not None:
+        if len(args) > 2:
+            args = args[:2] + (np.asarray(out),) + args[3:]
+        else:
+            kwargs["out"] = np.asarray(out)
+    res = func._implementation(np.asarray(a), *args, **kwargs)
+    if getattr(out, "units", None) is not None:
+        out.units = a.units
+    return res * a.units
+
+
 @implements(np.percentile)
 def percentile(a, *args, **kwargs):
-    return np.percentile._implementation(np.asarray(a), *args, **kwargs) * a.units
+    return _quantile_helper(np.percentile, a, *args, **kwargs)
 
 
 @implements(np.quantile)
 def quantile(a, *args, **kwargs):
-    return np.quantile._implementation(np.asarray(a), *args, **kwargs) * a.units
+    return _quantile_helper(np.quantile, a, *args, **kwargs)
 
 
 @implements(np.nanpercentile)
 def nanpercentile(a, *args, **kwargs):
-    return np.nanpercentile._implementation(np.asarray(a), *args, **kwargs) * a.units
+    return _quantile_helper(np.nanpercentile, a, *args, **kwargs)
 
 
 @implements(np.nanquantile)
 def nanquantile(a, *args, **kwargs):
-    return np.nanquantile._implementation(np.asarray(a), *args, **kwargs) * a.units
+    return _quantile_helper(np.nanquantile, a, *args, **kwargs)
 
 
 @implements(np.linalg.det)
